@@ -248,6 +248,8 @@ def generate(rng, tier):
                 op["preempt"] = rng.random() < 0.7
             if rng.random() < 0.15:
                 op["release"] = False
+            elif rng.random() < 0.15:
+                op["release_twice"] = rng.choice([0, 0.5, 1, 2])
             elif rng.random() < 0.35:
                 op["ctx"] = True         # `with resource.request() as req:`
             elif kind == "preemptive" and capacity >= 2 and rng.random() < 0.3:
@@ -258,6 +260,8 @@ def generate(rng, tier):
                 patience = None
         if patience is not None:
             op["patience"] = patience
+        elif op["op"] in ("put", "get") and rng.random() < 0.12:
+            op["wait"] = False        # fire and forget: the request is made, nobody yields it
         return op
 
     processes = []
